@@ -5,6 +5,7 @@ import CoapVerif.Model.ReplayAbs
 -- DRIVER-OPS: sender => Coap.Driver.Replay.senderStep
 -- DRIVER-OPS: validate => Coap.Driver.Replay.validateStep
 -- DRIVER-OPS: nonces => Coap.Driver.Replay.noncesStep
+-- DRIVER-OPS: endp => Coap.Driver.Replay.endpStep
 namespace Coap.Driver.Replay
 open Coap.Replay
 
@@ -129,9 +130,10 @@ def validateStep (args : List String) : String :=
     | .ub => "M ub"
   | _ => "bad-op"
 
-/-- `nonces <window> <op>…` (same letters as harness/replay.c; the peer's Sender ID is 01, the endpoint's own 02). -/
+/-- `nonces <window> <op>…` (same letters as harness/replay.c; the peer's Sender ID is 01, the endpoint's own 02).
+`q` is a request whose token no response uses. -/
 def parseNOp (w : String) : Option NOp :=
-  if w = "q" then some .sendReq
+  if w = "q" then some (.sendReq 1000 false false)
   else match w.toList with
     | k :: rest =>
       match (String.ofList rest).splitOn "." with
@@ -161,7 +163,12 @@ def showNonce : Nonce → String
 def showNObs : NObs → String
   | .verdict v => showVerdict v
   | .sent piv n => (match piv with | some p => toString p | none => "-") ++ "/" ++ showNonce n
+  | .chal (some p) => "chal:" ++ toString p ++ "/" ++ showNonce (.own p)
+  | .chal none => "drop"
   | .err => "err"
+  | .resumed v => "r" ++ toString v
+
+def distinct (ns : List Nonce) : String := if ns.eraseDups.length = ns.length then "distinct" else "reused"
 
 def noncesStep (args : List String) : String :=
   match args with
@@ -169,10 +176,64 @@ def noncesStep (args : List String) : String :=
     match w.toNat?, parseAll parseNOp ops with
     | some w, some ops =>
       let obs := nrun { window := if w = 0 then 32 else w, b12 := false } Endp.fresh ops
-      let ns := nonces obs
-      "M " ++ String.intercalate " " (obs.map showNObs) ++ " | S " ++
-        (if ns.eraseDups.length = ns.length then "distinct" else "reused")
+      "M " ++ String.intercalate " " (obs.map showNObs) ++ " | S " ++ distinct (nonces obs)
     | _, _ => "bad-op"
+  | _ => "bad-op"
+
+/-- `endp <window> <b12> <ssn_freq> <start> <op>…`: the same endpoint over its whole life — tokens of its own requests
+(`q/Q/D<t>`: GET / Observe registration / deregistration) share the token space of the requests it receives, requests
+with the right / a wrong Echo value (`e/E/w<t>.<piv>`), the save callback (`s<v>` appended when it ran), crashes and
+restarts from the stored value (`c<f>`). -/
+def parseEOp (w : String) : Option NOp :=
+  match w.toList with
+  | k :: rest =>
+    match (String.ofList rest).splitOn "." with
+    | [t] =>
+      match t.toNat? with
+      | some t =>
+        if k = 'c' then some (.crash t)
+        else if t > 15 then none
+        else if k = 'r' then some (.sendRsp t false false)
+        else if k = 'n' then some (.sendRsp t true false)
+        else if k = 'i' then some (.sendRsp t false true)
+        else if k = 'q' then some (.sendReq t false false)
+        else if k = 'Q' then some (.sendReq t true false)
+        else if k = 'D' then some (.sendReq t true true)
+        else none
+      | none => none
+    | [t, p] =>
+      match t.toNat?, p.toNat? with
+      | some t, some p =>
+        if t > 15 then none
+        else if k = 'g' then some (.reqIn t ⟨true, p, .none⟩ false)
+        else if k = 'o' then some (.reqIn t ⟨true, p, .none⟩ true)
+        else if k = 'e' then some (.reqIn t ⟨true, p, .good⟩ false)
+        else if k = 'E' then some (.reqIn t ⟨true, p, .good⟩ true)
+        else if k = 'w' then some (.reqIn t ⟨true, p, .bad⟩ false)
+        else if k = 'x' then some (.reqIn t ⟨false, p, .none⟩ false)
+        else none
+      | _, _ => none
+    | _ => none
+  | [] => none
+
+def endpLoop (cfg : Cfg) : Endp → List NOp → List String × List Nonce
+  | _, [] => ([], [])
+  | e, op :: ops =>
+    let x := nstep cfg e op
+    let sv := match op with
+      | .crash _ => ""
+      | _ => if x.1.sys.stored = e.sys.stored then "" else "s" ++ toString x.1.sys.stored
+    let t := endpLoop cfg x.1 ops
+    ((showNObs x.2 ++ sv) :: t.1, nemit x.2 ++ t.2)
+
+def endpStep (args : List String) : String :=
+  match args with
+  | w :: b :: f :: st :: ops =>
+    match w.toNat?, b.toNat?, f.toNat?, st.toNat?, parseAll parseEOp ops with
+    | some w, some b, some f, some st, some ops =>
+      let t := endpLoop { window := if w = 0 then 32 else w, b12 := b ≠ 0 } (Endp.start f st) ops
+      "M " ++ String.intercalate " " t.1 ++ " | S " ++ distinct t.2
+    | _, _, _, _, _ => "bad-op"
   | _ => "bad-op"
 
 end Coap.Driver.Replay
